@@ -127,6 +127,10 @@ def run_case(case) -> Result:
                 d[k] = v if k == "0" else (("py", vber.pythonized(*_tc(db, table, k, rid))) if pyv else v)
             exp.append(d)
         key = lambda r: r.get("0", "")
+        notstr = [r for r in got if type(r.get("0")) is not str]
+        if notstr:
+            return Result("%s: %s returned a row whose key '0' is %r, not the dotted index string" % (head, variant, notstr[0].get("0")),
+                          nontrivial, cls)
         ids = [r.get("0") for r in got]
         if len(set(ids)) != len(ids):
             return Result("%s: %s returned two rows for index %r" % (head, variant, [i for i in ids if ids.count(i) > 1][0]),
